@@ -319,6 +319,20 @@ class G:
             out.append(t.decl)
             out.append(t.genimpl)
             out.append("")
+        # mutually recursive family: an enum-as-union two of whose record variants contain the enum again (so the union node is
+        # entered more than twice while its schema is written), one of them twice
+        k = self.fresh("X")
+        expr, add, neg = f"Expr{k}", f"Add{k}", f"Neg{k}"
+        ns = r.choice([None, "rec.ns"])
+        nsattr = [f'#[avro_schema(namespace = "{ns}")]'] if ns else []
+        fa, fn_ = self.fullname_of(add, ns), self.fullname_of(neg, ns)
+        out.append("\n".join([self.DERIVES] + nsattr + [f"pub enum {expr} {{", '\t#[serde(rename = "Long")]', "\tLit(i64),", f'\t#[serde(rename = "{fa}")]', f"\tAdd(Box<{add}>),", f'\t#[serde(rename = "{fn_}")]', f"\tNeg(Box<{neg}>),", "}"]))
+        out.append("\n".join([self.DERIVES] + nsattr + [f"pub struct {add} {{", f"\tpub l: {expr},", f"\tpub r: {expr},", "}"]))
+        out.append("\n".join([self.DERIVES] + nsattr + [f"pub struct {neg} {{", f"\tpub e: {expr},", "\tpub tags: Vec<String>,", "}"]))
+        out.append(f"impl Gen for {expr} {{\n\tfn gen(r: &mut Rng, d: usize) -> Self {{\n\t\tif d > 4 {{\n\t\t\treturn {expr}::Lit(Gen::gen(r, d));\n\t\t}}\n\t\tmatch r.below(3) {{\n\t\t\t0 => {expr}::Lit(Gen::gen(r, d)),\n\t\t\t1 => {expr}::Add(Box::new(Gen::gen(r, d + 1))),\n\t\t\t_ => {expr}::Neg(Box::new(Gen::gen(r, d + 1))),\n\t\t}}\n\t}}\n}}")
+        out.append(f"impl Gen for {add} {{\n\tfn gen(r: &mut Rng, d: usize) -> Self {{\n\t\t{add} {{ l: Gen::gen(r, d + 1), r: Gen::gen(r, d + 1) }}\n\t}}\n}}")
+        out.append(f"impl Gen for {neg} {{\n\tfn gen(r: &mut Rng, d: usize) -> Self {{\n\t\t{neg} {{ e: Gen::gen(r, d + 1), tags: Gen::gen(r, d + 1) }}\n\t}}\n}}")
+        recursive_family = [(expr, None), (add, fa), (neg, fn_)]
         # structs generic over a const parameter (and one over a type and a const): the instantiations differ only by the constant
         vis = "" if self.private_generics else "pub "
         cgs = []
@@ -363,6 +377,8 @@ class G:
         for t in self.types:
             if t.check and not t.generic:
                 checks.append((t.name, t.name, t.fullname if t.kind in ("struct", "unit_enum") else None))
+        for name, full in recursive_family:
+            checks.append((name, name, full))
         out.append("pub fn run_all(rt: &mut Runtime) {")
         for ty, ident, full in checks:
             out.append(f"\trt.check::<{ty}>({json.dumps(ident)});")
